@@ -65,6 +65,8 @@ type nodeChk struct {
 	nextApply       uint64
 	applyOutSizes   []uint64 // sizes of batches handed out and not yet acknowledged
 	snapOutstanding bool
+	snapBaseIdx     uint64   // C09: the latest snapshot installed through Step(MsgSnap) in this incarnation
+	snapBaseConf    *RefConf // ... and its membership
 	preSnapHad      bool // C09: before the current Step(MsgSnap) the log held the snapshot's (index, term)
 
 	// C18
@@ -335,6 +337,7 @@ func (k *Checker) onStart(n *Node, restart bool) {
 	x.applyOutSizes = nil
 	x.handedOut = nil
 	x.snapOutstanding = false
+	x.snapBaseIdx, x.snapBaseConf = 0, nil
 	x.episodes = map[uint64]*fcEpisode{}
 	x.ucAccepted, x.ucApplied = 0, 0
 	x.snapPending = map[uint64]bool{}
